@@ -50,6 +50,8 @@ CHECKS = {
    design="5/C16", technique="TLA+ fault actions + TLC enumeration of fault sequences + terminal-state trace oracle"),
  "C17": dict(text="spec/Output.tla models the three renderings as token streams: a pushdown acceptor for the XML subset (plus element counts and numeric leaves), a table from every entry of the plain report to the path of the value it prints, and the flattened JSON. TLC enumerates the free-text strings (all sequences of at most 2 / 3 atoms incl. markup characters, quotes, backslash, non-ASCII) and checks the escaping at atom level; the real renderings of lattice buildings, random buildings, shipped files and every enumerated string - and the documents the real program writes - are lexed by the harness and judged by TLC.",
    design="5/C17", technique="TLA+ token-stream model (pushdown acceptor, report table) + TLC enumeration of strings + trace validation of lexed outputs"),
+ "C18": dict(text="TextFormat.tla specifies Print / Parse of every kind of component line; TLC checks Parse(Print(c)) = c for every kind, id and tag (MC_C18). On the real library a RoundTrip event records a set written with Display, its tokenised lines and the re-read set: TLC judges the printed lines against TextFormat!PrintLine, metadata / components / demands / factors of the re-read sets at the printed precision, and the Session history Evaluate ; SaveReload ; Evaluate - also through the real program (--oc --of, second run on the saved files).",
+   design="5/C18", technique="TLA+ Print/Parse spec + TLC round-trip invariant + trace validation of save/reload histories (library and CLI)"),
  "C19": dict(text="spec/Cli.tla is a finite model of option / metadata / default resolution and exit codes; TLC enumerates its configuration space (complete product in the thorough tier) and every configuration is executed by the real binary; TLC judges exit code, origin lines, effective values in --json, write-back in --oc and the per-m2 ratio against Cli!Allowed (set-valued where the statement is silent).",
    design="5/C19", technique="finite TLA+ model of the CLI + TLC enumeration of configurations + trace validation of real executions"),
 }
